@@ -95,8 +95,10 @@ def constraints_spec(draw):
     return c
 
 
-def _times(draw, dtScale):
-    if dtScale <= 1e-3:
+def _times(draw, dtScale, total_log10=None):
+    if total_log10 is not None:
+        total = 10 ** draw(st.floats(*total_log10))
+    elif dtScale <= 1e-3:
         total = 10 ** draw(st.floats(0.0, 1.2))
     elif dtScale <= 0.05:
         total = 10 ** draw(st.floats(1.0, 5.5))
@@ -109,14 +111,16 @@ def _times(draw, dtScale):
 
 
 @st.composite
-def toy_binary_scenario(draw, cap=400, max_phases=3, allow_profile=True, sites=None, allow_shapes=True, undersat=True):
+def toy_binary_scenario(draw, cap=400, max_phases=3, allow_profile=True, sites=None, allow_shapes=True, undersat=True, total_log10=None, dtScales=None):
     T0 = draw(st.floats(500.0, 900.0))
     nph = min(max_phases, draw(st.sampled_from([1, 1, 1, 2, 2, 3])))
     x0 = 10 ** draw(st.floats(-3.3, -1.3))
     vmA = 10 ** draw(st.floats(-5.3, -4.8))
     phases = [draw(toy_phase("P%d" % i, T0, x0, vmA, allow_shapes=allow_shapes, sites=sites, undersat=undersat)) for i in range(nph)]
     cons = draw(constraints_spec())
-    total, durations = _times(draw, cons["dtScale"])
+    if dtScales:
+        cons["dtScale"] = draw(st.sampled_from(dtScales))
+    total, durations = _times(draw, cons["dtScale"], total_log10)
     omegas = [p["_omega"] for p in phases if p["_omega"]]
     omega = max(omegas) if omegas else 0.01
     t_g = total * 10 ** draw(st.floats(-3.0, -1.0))
